@@ -1,6 +1,6 @@
 import Driver.Wire
 import Driver.KCodec
-import Sio.Model.Client
+import Sio.Model.ClientSpec
 open Lean (Json)
 namespace Sio.KClient
 open Sio.Wire Sio.Client
@@ -16,6 +16,10 @@ open Sio.Wire Sio.Client
 structure St where
   cfg : Cfg
   cli : Cli
+  /-- the server's view (`specStep false`), `none` once the history has left the quantifier -/
+  view : Option View := some View.down
+  /-- the same with `strict` (every waiting connect fully accepted) -/
+  sview : Option View := some View.down
 
 def boolOf (j : Json) (k : String) : Bool :=
   match j.getObjVal? k with
@@ -170,19 +174,35 @@ def snapshot (c : Cli) : Json :=
     ("sid", optStrToJson c.sid),
     ("eio", match c.eio with | .connected => "connected" | .disconnected => "disconnected")]
 
+def noteToJson : Note → Json
+  | .accepted n => Json.arr #["accepted", strToJson n]
+  | .refused n => Json.arr #["refused", strToJson n]
+  | .ended n => Json.arr #["ended", strToJson n]
+
 def step (s : Option St) (j : Json) : Except String (Option St × Json) :=
   match j.getObjVal? "cfg" with
   | .ok cj => do
     let cfg ← cfgOfJson cj
-    pure (some ⟨cfg, init⟩, Json.mkObj [("ok", Json.bool true)])
+    pure (some { cfg := cfg, cli := init }, Json.mkObj [("ok", Json.bool true)])
   | .error _ =>
     match s with
     | none => throw "no cfg line yet"
     | some st => do
       let i ← inputOfJson j
       let r := Client.step st.cfg st.cli i
-      pure (some ⟨st.cfg, r.1⟩,
-            Json.mkObj [("out", Json.arr (r.2.map outToJson).toArray), ("q", snapshot r.1)])
+      let sp := st.view.bind (fun v => specStep false v i)
+      let ss := st.sview.bind (fun v => specStep true v i)
+      let spec := Json.mkObj [
+        ("in", Json.bool sp.isSome), ("strict", Json.bool ss.isSome),
+        ("notes", match sp with
+          | some (_, t) => Json.arr (t.map noteToJson).toArray
+          | none => Json.null),
+        ("model_notes", Json.arr ((notes r.2).map noteToJson).toArray),
+        ("acc", match sp with
+          | some (v, _) => Json.arr (v.acc.map (fun e => Json.arr #[strToJson e.1, jToJson e.2])).toArray
+          | none => Json.null)]
+      pure (some { cfg := st.cfg, cli := r.1, view := sp.map (·.1), sview := ss.map (·.1) },
+            Json.mkObj [("out", Json.arr (r.2.map outToJson).toArray), ("q", snapshot r.1), ("spec", spec)])
 
 def main : IO Unit := lineLoop none step
 
